@@ -641,18 +641,19 @@ impl AssemblyCode {
                         }
                         AsmMnemonic::DEC | AsmMnemonic::INC => {
                             flags = FlagsState::Unknown;
+                            // Like a store: tab+1 and tab,X may be the same cell
                             if let Some(v) = &accumulator {
-                                if v.eq(&inst.dasm_operand) {
+                                if !v.starts_with("#") {
                                     accumulator = None;
                                 }
                             }
                             if let Some(v) = &x_register {
-                                if v.eq(&inst.dasm_operand) {
+                                if !v.starts_with("#") {
                                     x_register = None;
                                 }
                             }
                             if let Some(v) = &y_register {
-                                if v.eq(&inst.dasm_operand) {
+                                if !v.starts_with("#") {
                                     y_register = None;
                                 }
                             }
@@ -752,13 +753,14 @@ impl AssemblyCode {
                         AsmMnemonic::LSR | AsmMnemonic::ASL | AsmMnemonic::ROL | AsmMnemonic::ROR => {
                             flags = FlagsState::Unknown;
                             accumulator = None;
+                            // The memory form is a store too
                             if let Some(v) = &x_register {
-                                if v.eq(&inst.dasm_operand) {
+                                if !v.starts_with("#") {
                                     x_register = None;
                                 }
                             }
                             if let Some(v) = &y_register {
-                                if v.eq(&inst.dasm_operand) {
+                                if !v.starts_with("#") {
                                     y_register = None;
                                 }
                             }
